@@ -223,3 +223,30 @@ pub fn fuzz_decode(data: &[u8]) -> Option<serde_json::Value> {
   let ep = &eps[*sel as usize % eps.len()];
   serde_json::to_value(Case::new(ep.name, rest.to_vec())).ok()
 }
+
+/// Seed corpus files for the libFuzzer targets, derived from the committed entry-point seeds:
+/// (target, file name, content). Written by `vcheck --dump-seeds`.
+pub fn fuzz_seed_files() -> Vec<(&'static str, String, Vec<u8>)> {
+  let mut out = Vec::new();
+  let eps = entry_points();
+  for (i, ep) in eps.iter().enumerate() {
+    for (k, seed) in (ep.seeds)().into_iter().enumerate() {
+      let mut v = vec![i as u8];
+      v.extend_from_slice(&seed);
+      out.push(("entry_points", format!("e{i:02}-{k}"), v));
+      match ep.name {
+        "Decoder::decode_compact" => out.push(("jws_tokens", format!("compact-{k}"), [&[0u8][..], &seed].concat())),
+        "Decoder::decode_flattened" => out.push(("jws_tokens", format!("flattened-{k}"), [&[1u8][..], &seed].concat())),
+        "Decoder::decode_general" => out.push(("jws_tokens", format!("general-{k}"), [&[2u8][..], &seed].concat())),
+        "CoreDID::parse" => out.push(("did_strings", format!("did-{k}"), [&[0u8][..], &seed].concat())),
+        "DIDUrl::parse" => out.push(("did_strings", format!("url-{k}"), [&[1u8][..], &seed].concat())),
+        "DIDJwk::parse" => out.push(("did_strings", format!("jwk-{k}"), [&[2u8][..], &seed].concat())),
+        "IotaDID::parse" => out.push(("iota_did", format!("iota-{k}"), seed.clone())),
+        "StateMetadataDocument::unpack" => out.push(("state_metadata", format!("packed-{k}"), seed.clone())),
+        "Timestamp::parse" => out.push(("timestamp", format!("ts-{k}"), seed.clone())),
+        _ => {}
+      }
+    }
+  }
+  out
+}
